@@ -750,6 +750,47 @@ class C18(Prop):
         inv["argv_flags"] = argv_flags(rng.fork("argv"), inv)
         return {"rule_files": rf, "decls": decls, "root": "t", "tree": tree, "ext": [], "inv": inv}
 
+    def gen_shrink(self, rng):
+        """buffered reading (--no-mmap) of files of decreasing sizes by few workers: every file has its own token in its
+        last bytes and rules look at filesize, so anything a worker keeps from the previous (larger) file shows as a
+        spurious rule line, string-match line or a wrong filesize verdict.  In a scan list the order is the list's."""
+        k = rng.range(3, 7)
+        sizes = sorted(set([rng.choice([0, 0, 1, 7, 40, 300]), rng.range(60, 400), rng.range(500, 3000),
+                            rng.range(3000, 9000), rng.choice([70000, 20000, 9000])][:k] + [rng.range(10, 60)]), reverse=True)
+        tree, text, decls = [], "", []
+        for i, sz in enumerate(sizes):
+            tok = ("TAIL%dEND" % i).encode()
+            body = rng.bytes(max(0, sz - len(tok)), FILLER) + tok if sz >= len(tok) else b"z" * sz
+            tree.append({"k": "file", "name": "f%d_%s" % (i, rng.choice(["a", "b c", "é"])), "hex": hx(body)})
+            text += 'rule tail%d { strings: $t = "%s" condition: $t }\n' % (i, tok.decode())
+            decls.append({"ns": "default", "name": "tail%d" % i, "tags": [], "metas": [], "private": False, "global": False,
+                          "strings": [["t", False]]})
+            text += "rule size%d { condition: filesize == %d }\n" % (i, len(body))
+            decls.append({"ns": "default", "name": "size%d" % i, "tags": [], "metas": [], "private": False, "global": False,
+                          "strings": []})
+        text += "rule small { condition: filesize < 50 }\nrule ends { strings: $e = /END$/ condition: $e }\n"
+        for nm, strs in (("small", []), ("ends", [["e", False]])):
+            decls.append({"ns": "default", "name": nm, "tags": [], "metas": [], "private": False, "global": False,
+                          "strings": strs})
+        f = {x: False for x in "sLXmgecn"}
+        f.update({"l": None, "i": None, "t": None, "mml": rng.choice([None, 4]), "smax": None, "w": "print", "timeout": None,
+                  "chunk": None, "maxfetch": None, "mode": None})
+        for x in rng.choice(["", "s", "sL", "c", "n", "ns"]):
+            f[x] = True
+        if rng.chance(2, 3):
+            entries = ["t/" + n["name"] for n in tree]           # decreasing sizes, in this order
+            if rng.chance(1, 3):
+                entries = entries + entries[:2]
+            target = {"kind": "list", "entries": entries, "final_newline": True}
+        else:
+            target = {"kind": "dir"}
+        inv = {"mode": rng.choice(["scan", "yr", "load"]), "flags": f, "threads": rng.choice([1, 1, 1, 2, 3]),
+               "no_mmap": not rng.chance(1, 6), "recursive": False, "no_follow": False, "skip_larger": None,
+               "target": target, "shrink": True}
+        inv["argv_flags"] = argv_flags(rng.fork("argv"), inv)
+        return {"rule_files": [{"ns": None, "name": "rules0.yar", "text": text}], "decls": decls, "root": "t",
+                "tree": tree, "ext": [], "inv": inv}
+
     def gen_probe(self, rng):
         """controlled schedule: a scan list of named pipes, --no-mmap, n workers; the driver picks the completion order"""
         for k in range(20):
@@ -814,7 +855,8 @@ class C18(Prop):
                 cases.append(self.gen_probe(r.fork("probe")))
         # large events: at least one of each size class, one more per 80 cases
         big = [self.gen_big(rng.fork("big%d" % k), k % 3) for k in range(max(3, n // 80))]
-        return self.gen_specials(rng.fork("specials")) + big + cases[:n]
+        shrink = [self.gen_shrink(rng.fork("shrink%d" % k)) for k in range(max(4, n // 40))]
+        return self.gen_specials(rng.fork("specials")) + big + shrink + cases[:n]
 
     def budget(self, tier):
         return 240 if tier == "quick" else 2400
@@ -970,6 +1012,7 @@ class C18(Prop):
         n = max(1, inv["threads"])
         ok = True
         ok_conc = True
+        pipe_closed = False
 
         def poll_held():
             for pth in paths:
@@ -1020,10 +1063,18 @@ class C18(Prop):
             fd = held.pop(pick)
             os.set_blocking(fd, True)
             data = content[pick]
-            while data:
-                w = os.write(fd, data)
-                data = data[w:]
-            os.close(fd)
+            try:
+                while data:
+                    w = os.write(fd, data)
+                    data = data[w:]
+            except BrokenPipeError:
+                # the tool opened the pipe and closed it without reading to end of file (e.g. it sizes its
+                # read by stat): the schedule cannot be controlled through pipes, the probe says nothing
+                pipe_closed = True
+            finally:
+                os.close(fd)
+            if pipe_closed:
+                break
             released.add(pick)
             order.append(pick)
             while time.time() < deadline and proc.poll() is None and not has_marker(pick):
@@ -1033,6 +1084,19 @@ class C18(Prop):
                 time.sleep(0.05)
         for fd in held.values():
             os.close(fd)
+        if pipe_closed:
+            # let the tool run out (every remaining pipe gets a writer that closes at once), then give up
+            end = time.time() + 20
+            while proc.poll() is None and time.time() < end:
+                for pth in paths:
+                    try:
+                        os.close(os.open(os.path.join(d, pth), os.O_WRONLY | os.O_NONBLOCK))
+                    except OSError:
+                        pass
+                time.sleep(0.01)
+            if proc.poll() is None:
+                proc.kill()
+            return {"inconclusive": "the tool closes a named pipe without reading it to end of file", "cmd": cmd[1:]}
         try:
             proc.wait(timeout=max(1, deadline - time.time()))
         except subprocess.TimeoutExpired:
@@ -1078,14 +1142,59 @@ class C18(Prop):
         return run(case["cmd"])
 
     def one(self, ix_case):
+        try:
+            return self.one_inner(ix_case)
+        except Exception as ex:      # a driver failure is reported on its case, with the case as replay
+            import traceback
+            return {"dir": os.path.join(self.base, "%d" % ix_case[0]), "candidates": [],
+                    "cli": {"driver_exception": "%r\n%s" % (ex, traceback.format_exc()[-1500:])}}
+
+    def pipes_readable(self):
+        """capability check, once per round: does the tool read a named pipe given as a scan-list entry to end of
+        file (std::fs::read does)?  If not, schedules cannot be controlled through pipes and the probes are skipped."""
+        d = os.path.join(self.base, "preflight")
+        os.makedirs(d)
+        open(os.path.join(d, "r.yar"), "w").write('rule pf { strings: $a = "PIPETOKEN" condition: $a }\n')
+        open(os.path.join(d, "list.txt"), "w").write("p\n")
+        os.mkfifo(os.path.join(d, "p"))
+        env = dict(os.environ, RUST_BACKTRACE="0", NO_COLOR="1")
+        proc = subprocess.Popen([CLI, "scan", "--no-mmap", "-p", "1", "--scan-list", "-f", "r.yar", "list.txt"], cwd=d, env=env,
+                                stdout=subprocess.PIPE, stderr=subprocess.PIPE)
+        end = time.time() + 30
+        fd = None
+        while fd is None and time.time() < end and proc.poll() is None:
+            try:
+                fd = os.open(os.path.join(d, "p"), os.O_WRONLY | os.O_NONBLOCK)
+            except OSError:
+                time.sleep(0.005)
+        if fd is not None:
+            try:
+                os.set_blocking(fd, True)
+                os.write(fd, b"xx PIPETOKEN yy")
+            except OSError:
+                pass
+            os.close(fd)
+        try:
+            so, _ = proc.communicate(timeout=30)
+        except subprocess.TimeoutExpired:
+            proc.kill()
+            return False
+        return b"pf p" in so.split(b"\n")
+
+    def one_inner(self, ix_case):
         ix, case = ix_case
         d = os.path.join(self.base, "%d" % ix)
         if "special" in case:
             return {"dir": d, "cli": self.run_special(d, case), "candidates": []}
         self.materialise(d, case)
         if "probe" in case["inv"]:
+            if not self.probes_enabled:
+                return {"dir": d, "candidates": [],
+                        "cli": {"inconclusive": "the tool does not read named pipes to end of file (preflight)"}}
             res = {"dir": d, "cli": self.run_probe(d, case)}
             res["candidates"] = ["t/" + f["name"] for f in case["inv"]["probe"]["fifos"]]
+            if "inconclusive" in res["cli"]:
+                res["candidates"] = []
             return res
         res = {"dir": d, "cli": self.run_cli(d, case)}
         t = case["inv"]["target"]
@@ -1128,6 +1237,15 @@ class C18(Prop):
         ctx.workdirs = getattr(ctx, "workdirs", []) + [self.base]
         shutil.rmtree(self.base, ignore_errors=True)
         os.makedirs(self.base)
+        self.probes_enabled = True
+        if any("inv" in c and "probe" in c["inv"] for c in cases):
+            try:
+                self.probes_enabled = self.pipes_readable()
+            except Exception as ex:
+                self.probes_enabled = False
+                ctx.notes.append("pipe preflight failed: %r" % (ex,))
+            if not self.probes_enabled:
+                ctx.notes.append("controlled-schedule probes skipped: the tool does not read a named pipe to end of file")
         with ThreadPoolExecutor(max_workers=6) as ex:
             pre = list(ex.map(self.one, list(enumerate(cases))))
         hc = []
@@ -1162,6 +1280,8 @@ class C18(Prop):
                 ctx.count("special=" + case["special"])
                 continue
             inv = case["inv"]
+            if "shrink" in inv:
+                ctx.count("decreasing-sizes" + ("-no-mmap" if inv["no_mmap"] else "") + "-p%s" % inv["threads"])
             if "big" in inv:
                 try:
                     ctx.count("large-events")
@@ -1177,6 +1297,9 @@ class C18(Prop):
                         else 8 if len(r["cli"]["stdout"]) // 2 >= 8192 else 0))
                 except Exception:
                     pass
+            if "probe" in inv and "inconclusive" in r["cli"]:
+                ctx.count("controlled-schedule-inconclusive")
+                continue
             if "probe" in inv:
                 ctx.count("controlled-schedule")
             def kinds(nodes):
@@ -1297,6 +1420,10 @@ class C18(Prop):
 
     def term(self, ctx, case, out):
         cli, lib = out["cli"], out["lib"]
+        if "inconclusive" in cli:
+            return (True, True, 0)          # schedule probe not applicable to this build of the tool; counted
+        if "driver_exception" in cli:
+            return (False, False, 0)
         if "special" in case:
             if not isinstance(lib, dict) or "modules" not in lib or "rc" not in cli:
                 return (False, False, 0)
